@@ -234,7 +234,7 @@ func c09PathsOf(v ssa.Value) []relPath {
 	}
 	busy := map[key]bool{}
 	var of func(v ssa.Value, d int) []relPath
-	var elems func(s ssa.Value, d int) []relPath
+	var elems, elemsDirect, elemsOf func(s ssa.Value, d int) []relPath
 	var ofAddr func(a ssa.Value, d int) []relPath
 	ext := func(ps []relPath, step string) []relPath {
 		var out []relPath
@@ -271,6 +271,26 @@ func c09PathsOf(v ssa.Value) []relPath {
 		}
 		busy[key{s, true}] = true
 		defer delete(busy, key{s, true})
+		return append(elemsDirect(s, d), elemsOf(s, d)...)
+	}
+	// what is stored through s[i] = v on this very value
+	elemsDirect = func(s ssa.Value, d int) []relPath {
+		if _, isLoad := s.(*ssa.UnOp); isLoad {
+			return nil // a loaded slice: writes through it are writes to whatever it was loaded from
+		}
+		var out []relPath
+		for _, ref := range core.Referrers(s) {
+			if ia, ok := ref.(*ssa.IndexAddr); ok && ia.X == s {
+				for _, r2 := range core.Referrers(ia) {
+					if st, ok := r2.(*ssa.Store); ok && st.Addr == ssa.Value(ia) {
+						out = append(out, of(st.Val, d+1)...)
+					}
+				}
+			}
+		}
+		return out
+	}
+	elemsOf = func(s ssa.Value, d int) []relPath {
 		switch x := s.(type) {
 		case *ssa.UnOp:
 			if x.Op == token.MUL {
@@ -407,6 +427,9 @@ func c09ReleasedOnce(c *Ctx, p *core.Prog, relScope []string, co map[string]stri
 					}
 				}
 				for _, a := range args {
+					if os.Getenv("SA_DEBUG") != "" {
+						fmt.Fprintln(os.Stderr, "DEBUG rel", core.FnName(fn), a, c09PathsOf(a))
+					}
 					for _, q := range c09PathsOf(a) {
 						if len(q.steps) > 0 {
 							rels = append(rels, rel{q, in})
